@@ -23,6 +23,8 @@ func allPropsUnsorted() []*propInfo {
 				"NOT decided: clock arithmetic (that attempt_at/expires_at values make a message due again), database semantics, the history-level claim itself.",
 			Assumptions: []string{k1Assumption, "database executes the statements as ent renders them"},
 			Rules: []ruleFn{
+				{ID: "C04.9", Doc: "[alias] (shared) no predicate list is built by appending twice to one base slice with spare capacity", Run: ruleC04_9},
+				{ID: "C13.3", Doc: "[atoms][dep] (shared) the snapshot watermark is the oldest outstanding delivery's published_at itself: a seek to a fresh snapshot loses nothing that was outstanding", Run: ruleC13_3},
 				{ID: "C15.2", Doc: "[tab] (shared) foreign keys never cascade a delete into deliveries or messages: pruning a predecessor / parent cannot remove an outstanding delivery", Run: ruleC15_2},
 				{ID: "C01.1", Doc: "[who] retirement ownership of delivery rows", Run: ruleC01_1, Ctrl: true},
 				{ID: "C01.2", Doc: "[atoms] prune/ack selections are exactly their justification", Run: ruleC01_2},
@@ -45,6 +47,7 @@ func allPropsUnsorted() []*propInfo {
 				"NOT decided: JSON value equality through jsonb/text storage, duplicates within one response (primary-key fact), histories.",
 			Assumptions: []string{k1Assumption, "protobuf/ent field names correspond one-to-one as in the generated code"},
 			Rules: []ruleFn{
+				{ID: "C13.3", Doc: "[atoms] (shared) a snapshot records the ack state of ITS subscription only", Run: ruleC13_3},
 				{ID: "C02.1", Doc: "[atoms] pull scoping and response bound", Run: ruleC02_1},
 				{ID: "C02.2", Doc: "[atoms] no unscoped delivery mutation", Run: ruleC02_2, Ctrl: true},
 				{ID: "C02.3", Doc: "[who] messages are immutable", Run: ruleC02_3},
@@ -62,6 +65,8 @@ func allPropsUnsorted() []*propInfo {
 				"C06.5 (shared) a nack selects only outstanding rows, so a late nack of an acked id neither forwards it to the dead-letter topic nor rewrites it. Deliberately not demanded: the completed_at IS NULL guard in modify-deadline (dropping it does not resurrect an acked message: the pull excludes completed rows). NOT decided: the history-level claim.",
 			Assumptions: []string{k1Assumption},
 			Rules: []ruleFn{
+				{ID: "C04.9", Doc: "[alias] (shared) no predicate list is built by appending twice to one base slice with spare capacity", Run: ruleC04_9},
+				{ID: "C01.2", Doc: "[atoms] (shared) the ack addresses exactly the requested ids (every one of them): `id IN ids ∧ completed_at IS NULL`, nothing narrower", Run: ruleC01_2},
 				{ID: "C03.1", Doc: "[who] completion is undone only by seek", Run: ruleC03_1, Ctrl: true},
 				{ID: "C03.2", Doc: "[atoms] pull excludes completed rows", Run: ruleC03_2},
 				{ID: "C03.3", Doc: "[who] delivery rows are created only on publish/dead-letter", Run: ruleC03_3, Ctrl: true},
@@ -83,6 +88,7 @@ func allPropsUnsorted() []*propInfo {
 				"NOT decided: the numeric backoff formula, jitter bound and saturation; PostgreSQL row-lock semantics; 'handed out again once the deadline has passed'.",
 			Assumptions: []string{k1Assumption, "FOR UPDATE SKIP LOCKED / SQLite immediate transactions give exclusivity (database semantics)"},
 			Rules: []ruleFn{
+				{ID: "C04.9", Doc: "[alias] (shared) no predicate list is built by appending twice to one base slice with spare capacity", Run: ruleC04_9},
 				{ID: "C04.1", Doc: "[atoms] due-only selection; lookup unrestricted", Run: ruleC04_1},
 				{ID: "C04.2", Doc: "[atoms] row lock on every non-SQLite path", Run: ruleC04_2},
 				{ID: "C04.3", Doc: "[dom][dep] lease taken in the selecting transaction, per element", Run: ruleC04_3},
@@ -104,6 +110,7 @@ func allPropsUnsorted() []*propInfo {
 				"NOT decided: ties of published_at inside one batch, interplay with seek-to-snapshot, the history-level order itself.",
 			Assumptions: []string{k1Assumption},
 			Rules: []ruleFn{
+				{ID: "C01.5", Doc: "[who] (shared) the predecessor link and the attempt counter of a delivery are written by nobody but the creator / the pull", Run: ruleC01_5},
 				{ID: "C05.1", Doc: "[atoms] predecessor of the same key; exact lookup shape (C05.2)", Run: ruleC05_1_2},
 				{ID: "C05.3", Doc: "[dom] link set when found; errors returned", Run: ruleC05_3},
 				{ID: "C05.4", Doc: "[atoms] the eligibility gate", Run: ruleC05_4},
@@ -195,6 +202,7 @@ func allPropsUnsorted() []*propInfo {
 				{ID: "C15.2", Doc: "[tab] referential actions", Run: ruleC15_2},
 				{ID: "C15.3", Doc: "[tab] registry", Run: ruleC15_3},
 				{ID: "C15.4", Doc: "[dom] maintenance loops keep waking", Run: ruleC15_4},
+				{ID: "C15.5", Doc: "[atoms] child tables of topics that no job prunes are emptied, unconditionally, when the topic is deleted", Run: ruleC15_5},
 				{ID: "C01.1", Doc: "[who] (shared) delivery rows are removed only by the three delivery prune jobs, each with its justification", Run: ruleC01_1},
 				{ID: "C02.3", Doc: "[who] (shared) message rows are removed only by the completed-messages job", Run: ruleC02_3},
 			},
@@ -252,6 +260,7 @@ func allPropsUnsorted() []*propInfo {
 			},
 			Rules: []ruleFn{
 				{ID: "C16.1", Doc: "[K6][K10] panic preconditions refuted at every request-tainted call site; nil dereference of absent sub-messages (C16.2)", Run: ruleC16},
+				{ID: "C16.4", Doc: "[K9b] the effective page size is ≥ 1 on every path (no index panic on an empty page)", Run: ruleC16_4},
 				{ID: "C09.4", Doc: "[dom] (shared, C16.3) one operation, one transaction", Run: ruleC09_4},
 				{ID: "C09.5", Doc: "[dom] (shared, C16.3) no error after commit", Run: ruleC09_5},
 			},
@@ -273,6 +282,7 @@ func allPropsUnsorted() []*propInfo {
 				{ID: "C11.5", Doc: "[K6 interval] effective flow control >= 1", Run: ruleC11_5},
 				{ID: "C11.6", Doc: "[dom] byte budget", Run: ruleC11_6},
 				{ID: "C11.8", Doc: "[dep] the client's limits reach the streamer un-swapped and unaltered", Run: ruleC11_8},
+				{ID: "C11.9", Doc: "[who] a pull that found candidates answers: its result cell is written only by applyResults and never reset", Run: ruleC11_9},
 			},
 		},
 		{
@@ -303,6 +313,7 @@ func allPropsUnsorted() []*propInfo {
 				"NOT decided: 'never pushed again / pushed again after the backoff' (C03/C04 behaviour), concurrency <= window as a runtime count, out-of-order endpoints.",
 			Assumptions: []string{"net/http reports transport failures as a non-nil error from Client.Do"},
 			Rules: []ruleFn{
+				{ID: "C11.4", Doc: "[dom] (shared) the pusher's stream keeps its pending set exact (what is in flight counts against the window until the database says it is settled)", Run: ruleC11_4_7},
 				{ID: "C19.1", Doc: "[tab][dom] status mapping", Run: ruleC19_1},
 				{ID: "C19.2", Doc: "[dep] envelope", Run: ruleC19_2},
 				{ID: "C19.3", Doc: "[K6 interval] window stays in [1,1000]", Run: ruleC19_3},
@@ -320,6 +331,7 @@ func allPropsUnsorted() []*propInfo {
 				"NOT decided: agreement with the documented Pub/Sub semantics over the infinite input space, boolean laws, precedence as implemented by participle.",
 			Assumptions: []string{"participle builds the parser the struct tags describe", k1Assumption},
 			Rules: []ruleFn{
+				{ID: "C08.6", Doc: "[dom] (shared) a filter text produced by the printer (canonical form) keeps the grouping of negated sub-conditions", Run: ruleC08_6},
 				{ID: "C07.1", Doc: "[dom] routing gate, both directions", Run: ruleC07_1},
 				{ID: "C07.2", Doc: "[K7] exhaustiveness; no captured syntax ignored (C07.3)", Run: ruleC07_2_3},
 				{ID: "C07.4", Doc: "[tab] operator tables agree", Run: ruleC07_4},
@@ -338,6 +350,7 @@ func allPropsUnsorted() []*propInfo {
 				"NOT decided: 'accepted iff sentence of the documented grammar', parser totality/termination (third-party participle), full print/parse round-trip.",
 			Assumptions: []string{"participle builds the parser the struct tags describe; its lexer's identifier rule is text/scanner's (letter or '_' first, then letters/digits/'_')"},
 			Rules: []ruleFn{
+				{ID: "C08.7", Doc: "[compiler prove pass] no index / slice operation in package filter keeps an unproved bounds check", Run: ruleC08_7, Ctrl: true},
 				{ID: "C08.1", Doc: "[who][dom] validate before persist", Run: ruleC08_1},
 				{ID: "C08.2", Doc: "[K9] printer sanitisation", Run: ruleC08_2},
 				{ID: "C08.3", Doc: "[dom] an unquoted name is a non-empty identifier", Run: ruleC08_3},
@@ -355,6 +368,7 @@ func allPropsUnsorted() []*propInfo {
 			Assumptions: []string{k1Assumption, "protobuf/ent field names correspond one-to-one as in the generated code"},
 			Rules: []ruleFn{
 				{ID: "C17.1", Doc: "[dep] create mapping is complete", Run: ruleC17_1},
+				{ID: "C17.1", Doc: "[dep] each optional column is read back independently of its siblings", Run: ruleC17_1indep},
 				{ID: "C17.2", Doc: "[atoms] update-mask locality", Run: ruleC17_2},
 				{ID: "C17.3", Doc: "[dep] the duration codec never truncates a digits-derived float", Run: ruleC17_3},
 			},
